@@ -619,7 +619,13 @@ impl<'a> Gen<'a> {
             11 | 31 => {
                 let (h, _) = self.handle(Kind::Map);
                 let k = self.key();
-                self.push("map_get", vec![h, k]);
+                // (one call in five with a SURPLUS argument: it is ignored — a missing key gives nothing, not that word)
+                if self.rng.chance(1, 5) {
+                    let extra = self.value();
+                    self.push("map_get", vec![h, k, extra]);
+                } else {
+                    self.push("map_get", vec![h, k]);
+                }
             }
             12 => {
                 let (h, _) = self.handle(Kind::Map);
